@@ -1,3 +1,8 @@
 fn main() {
+    let args: Vec<String> = std::env::args().collect();
+    if args.len() >= 2 && args[1] == "__c19_child" {
+        // helper process of C19: commits and stops at a crash point without running destructors
+        vf_store::c19::child_main(&args[2..]);
+    }
     vf_core::main_with(vf_store::checks());
 }
